@@ -26,7 +26,9 @@ BUDGET = {'quick': (600, 1500), 'thorough': (1200, 3600)}
 
 TIMES = [0, 1, 2**31 - 1, 2**31, 2**31 + 1, 2**32 - 1, 1109484000, 1130648400, 1667714400, 946684799, 86399, 86400]
 ALLKEYS = ['rsa1024_0', 'rsa2048_0', 'rsa3072_0', 'dsa1024_0', 'dsa2048_0', 'dsa3072_0', 'ecdsa_p256_0', 'ecdsa_p384_0', 'ecdsa_p521_0', 'ecdsa_k256_0',
-           'ecdh_p256_0', 'ecdh_p384_0', 'ecdh_p521_0', 'ecdh_k256_0', 'ed25519_0', 'cv25519_0', 'elg1024_0']
+           'ecdh_p256_0', 'ecdh_p384_0', 'ecdh_p521_0', 'ecdh_k256_0', 'ed25519_0', 'cv25519_0',
+           # public points whose coordinates begin with a zero octet
+           'ecdsa_p521_short', 'ecdh_p521_short', 'ecdsa_p256_short', 'elg1024_0']
 
 
 def cases(tier, seed):
